@@ -262,4 +262,54 @@ def execute(mat, ctx):
                 ctx.violation("rotation-changes-assembly:%s" % how,
                               "%s assembly of %d module(s): rotating the inputs left by %s (%s) changes the product from %s to %s" % (
                                   amat["enzyme"], len(texts) - 1, rots, how, base[:60], got[:60]), enzyme=amat["enzyme"], texts=texts, rots=rots)
+    # the same with annotated inputs: the features a product carries (type, identifier, qualifiers and the nucleotides each
+    # reads 5'->3' along its own strand) do not depend on where the inputs' origins were
+    from . import C12
+    from ..denote import denote
+    k = geom[2]
+    rf = gen.rng_for(mat["seed"], PROP, "asm-features", mat["i"])
+    specs = []
+    for sp in [amat["vector"]] + amat["modules"]:
+        sp = dict(sp)
+        sp["features"] = C12._inner_features(rf, sp, k)
+        for j, f in enumerate(sp["features"]):
+            if rf.random() < 0.6:
+                f["fid"] = "%s_feat%04d" % (sp["id"], j)          # identifiers as annotation pipelines assign them
+        sp.pop("refs", None)
+        specs.append(sp)
+    if any(sp["features"] for sp in specs):
+        comp = {"A": "T", "C": "G", "G": "C", "T": "A"}
+
+        def carried(prod):
+            text = str(prod.seq).upper()
+            out = []
+            for f in prod.features:
+                u = f.qualifiers.get("uid")
+                if u:
+                    out.append((f.type, f.id, u[0], "".join(text[p] if st != -1 else comp[text[p]] for p, st in denote(f.location, len(text)) if not isinstance(p, tuple))))
+            return sorted(out)
+
+        def annotated(rots, how):
+            recs = []
+            for sp, r in zip(specs, rots):
+                recs.append(gen.make_record(_embedded._rotate_spec(rf, sp, r)) if how == "string" else (gen.make_record(sp) << r))
+            import warnings
+            with warnings.catch_warnings():
+                warnings.simplefilter("ignore")
+                try:
+                    return carried(V(recs[0]).assemble(*[M(r) for r in recs[1:]]))
+                except Exception as e:
+                    return "raised " + type(e).__name__
+
+        base_f = annotated([0] * len(specs), "string")
+        for trial in range(3):
+            rots = [rf.choice([rf.randrange(len(sp["seq"])), rf.randrange(min(len(sp["seq"]), width)), 0]) for sp in specs]
+            for how in ("string", "operator"):
+                ctx.count("evaluations")
+                ctx.count("c02_annotated_assembly_comparisons")
+                got_f = annotated(rots, how)
+                if got_f != base_f:
+                    ctx.violation("rotation-changes-product-features:%s" % how, "%s assembly of %d module(s): with the inputs rotated left by %s (%s) the product carries %s, unrotated %s" % (
+                        amat["enzyme"], len(specs) - 1, rots, how, str(got_f)[:200], str(base_f)[:200]), enzyme=amat["enzyme"], rots=rots)
+                    break
     ctx.nontrivial(["asm", amat["enzyme"], texts])
